@@ -51,6 +51,9 @@ static void f_query(const char *fam, const char *s) {
     qlisttbl_t *t = qparse_queries(NULL, p, '=', '&', &c);
     if (!t) vc_viol("query:null", "NULL table");
     else { if (c < 0 || (size_t)c != t->size(t)) vc_viol("query:count", "count %d size %zu", c, t->size(t)); t->free(t); }
+    /* separator arguments that cannot occur in the string: a NUL, a byte above 0x7f (the input stays the subject, the separators are argument classes) */
+    { const char eq[3] = {0, '=', (char)0x80}, sp[3] = {'&', 0, (char)0x80};
+      for (int v = 0; v < 3; v++) { qlisttbl_t *t2 = qparse_queries(NULL, p, eq[v], sp[v], NULL); if (t2) t2->free(t2); } }
     if (strcmp(p, s)) vc_viol("query:modified-input", "input string was modified");
     free(p);
     n_nontrivial += strlen(s) > 0;
@@ -61,6 +64,7 @@ static void f_ini(const char *fam, const char *s) {
     char *p = hs(s);
     qlisttbl_t *t = qconfig_parse_str(NULL, p, '=');
     if (t) t->free(t);
+    t = qconfig_parse_str(NULL, p, 0); if (t) t->free(t);     /* a NUL as separator argument */
     if (strcmp(p, s)) vc_viol("ini:modified-input", "input string was modified");
     free(p);
     n_nontrivial += strchr(s, '$') != NULL || strchr(s, '[') != NULL;
